@@ -116,6 +116,15 @@ def isMissing : Val → Bool
 
 def notMissing (v : Val) : Bool := !isMissing v
 
+/-- the validator of a State attribute annotated `Missing`: identity with the constant (`value is MISSING`), not
+`isinstance` – an object that merely reports `Missing` as its class does not conform -/
+def validMissing (v : Val) : Bool := isMissing v
+
+/-- … annotated `str | Missing` -/
+def validStrOrMissing : Val → Bool
+  | .str _ => true
+  | v => isMissing v
+
 def whenMissing (v dflt : Val) : Val := if isMissing v then dflt else v
 
 /-- `bool(v)` -/
